@@ -50,6 +50,8 @@ func c09Case(rt *rapid.T, rec *vt.Rec) {
 		hist = append(hist, fmt.Sprintf("[t+%s] ", time.Since(bubbleEpoch()))+fmt.Sprintf(f, a...))
 	}
 	fail := func(f string, a ...interface{}) {
+		// (printed first: a failure while goroutines are still blocked is otherwise reported as a bare bubble deadlock)
+		fmt.Printf("C09 FAILURE DETAIL: %.1500s\n  history:\n  %.4000s\n", fmt.Sprintf(f, a...), strings.Join(hist, "\n  "))
 		rt.Fatalf("%s\nhistory:\n  %s", fmt.Sprintf(f, a...), strings.Join(hist, "\n  "))
 	}
 	slow := map[int]time.Duration{} // conn id -> whitelist delay
@@ -142,8 +144,58 @@ func c09Case(rt *rapid.T, rec *vt.Rec) {
 	}
 	n := rapid.IntRange(3, 16).Draw(rt, "steps")
 	for k := 0; k < n; k++ {
-		op := rapid.SampledFrom([]string{"connect", "connect", "close", "close", "probe", "closeDuring", "reregDuring", "failedReconnect", "reconnectRace", "advance", "closeDuringConnect", "closeWithStoreFault"}).Draw(rt, "op")
+		op := rapid.SampledFrom([]string{"connect", "connect", "close", "close", "probe", "closeDuring", "reregDuring", "failedReconnect", "reconnectRace", "advance", "closeDuringConnect", "closeWithStoreFault", "closeWhileOwnRequest"}).Draw(rt, "op")
 		switch op {
+		case "closeWhileOwnRequest":
+			// a host's connection closes while a request that this host itself sent over it is still being served (its
+			// peer request waits for another, slow host): the closed connection is unregistered at once, not when the
+			// pool is done with that request
+			var live []int
+			for i := 0; i < nHosts; i++ {
+				if _, ok := s.model.liveHost(s.agents[i].id.nodeID); ok {
+					live = append(live, i)
+				}
+			}
+			if len(live) < 2 {
+				continue
+			}
+			ai := rapid.IntRange(0, len(live)-1).Draw(rt, "requesterHost")
+			a := live[ai]
+			b := live[(ai+1+rapid.IntRange(0, len(live)-2).Draw(rt, "slowHost"))%len(live)]
+			acid, _ := s.model.liveHost(s.agents[a].id.nodeID)
+			bcid, _ := s.model.liveHost(s.agents[b].id.nodeID)
+			var aconn *agentConn
+			for _, ac := range s.agents[a].conns {
+				if ac.id == acid {
+					aconn = ac
+				}
+			}
+			s.mu.Lock()
+			slow[bcid] = 3 * time.Second
+			s.mu.Unlock()
+			ownDone := make(chan struct{})
+			go func() {
+				defer close(ownDone)
+				// the host's own peer request, over its own connection
+				ag := s.agents[a]
+				req := pool.PeerRequest{Num: 3}
+				n := s.nonce(ag.id.nodeID)
+				ctx, cancel := context.WithTimeout(context.Background(), 6*time.Second)
+				defer cancel()
+				var resp pool.PeerResponse
+				aconn.c.agentSide.Call(ctx, &resp, "vipnode_peer", mustSign(ag.id.key, "vipnode_peer", ag.id.nodeID, n, req), ag.id.nodeID, n, req)
+			}()
+			time.Sleep(time.Second)
+			s.closeConn(aconn)
+			logf("host %s's conn#%d closes while its own peer request (waiting for slow host %s) is still being served", s.agents[a].id.name, acid, s.agents[b].id.name)
+			checkRegistry("closeWhileOwnRequest (right after the close)")
+			time.Sleep(4 * time.Second)
+			<-ownDone // (its reply can no longer arrive: the call ends with its deadline)
+			s.mu.Lock()
+			delete(slow, bcid)
+			s.mu.Unlock()
+			classes["close-own-request"] = true
+			classes["close-current"] = true
 		case "closeDuringConnect":
 			// a host registers on a new connection and that very connection closes while the registration is still
 			// inside the store: whatever order the two finish in, the closed connection must not stay registered
